@@ -13062,7 +13062,7 @@ let rec long_fill fuel bound wrap long base longBits lim minInc entry pan =
     else (long, pan)
 
 (** val gen_small :
-    bool -> arr -> arr -> arr -> n -> arr -> n -> ((arr * arr) * arr) * bool **)
+    bool -> arr -> arr -> arr -> n -> arr -> n -> ((arr * arr) * arr) * ierr **)
 
 let gen_small hdr short long codes ncodes count maxSymbol =
   let ct =
@@ -13074,7 +13074,7 @@ let gen_small hdr short long codes ncodes count maxSymbol =
   in
   let codeListLen = aget ct (Npos (XO (XO (XO (XO XH))))) in
   if N.eqb codeListLen N0
-  then (((aempty, long), codes), false)
+  then (((aempty, long), codes), ENone)
   else let (p, pan0) =
          forN N0 ncodes (fun i st ->
            let (p, pan) = st in
@@ -13091,7 +13091,7 @@ let gen_small hdr short long codes ncodes count maxSymbol =
        in
        let (cl, _) = p in
        if pan0
-       then (((short, long), codes), true)
+       then (((short, long), codes), EPanic)
        else let lastLength0 = hc_len (aget codes (aget cl N0)) in
             let lastLength =
               if N.ltb (Npos (XO (XI (XO XH)))) lastLength0
@@ -13148,11 +13148,11 @@ let gen_small hdr short long codes ncodes count maxSymbol =
                 let (p1, lcl) = p0 in
                 let (p2, codes0) = p1 in
                 let (short2, long0) = p2 in
-                if pan
+                if negb (ierr_eqb pan ENone)
                 then st
                 else if N.leb (Npos (XO (XO (XO (XO (XO XH))))))
                           (N.add longCodeStart i)
-                     then ((((short2, long0), codes0), lcl), true)
+                     then ((((short2, long0), codes0), lcl), EPanic)
                      else let li = aget cl (N.add longCodeStart i) in
                           if N.eqb (hc_code (aget codes0 li)) (Npos (XI (XI
                                (XI (XI (XI (XI (XI (XI (XI (XI (XI (XI (XI
@@ -13193,77 +13193,90 @@ let gen_small hdr short long codes ncodes count maxSymbol =
                                     then N.mul (Npos (XO XH)) grp
                                     else grp)
                                in
-                               if N.ltb (Npos (XO (XO (XO (XO (XI (XO
-                                    XH))))))) clrEnd
-                               then ((((short2, long0), codes0), lcl), true)
-                               else let long1 =
-                                      forN lcl clrEnd (fun x t0 ->
-                                        aset t0 x N0) long0
-                                    in
-                                    let (p3, pan1) =
-                                      fold_left (fun a sym ->
-                                        let (p3, pan1) = a in
-                                        let (long2, codes1) = p3 in
-                                        let codeLength =
-                                          hc_len (aget codes1 sym)
-                                        in
-                                        let longBits =
-                                          u16
-                                            (N.shiftr
-                                              (hc_code (aget codes1 sym))
-                                              (Npos (XO (XI (XO XH)))))
-                                        in
-                                        let minInc =
-                                          shl16 (Npos XH)
-                                            (N.sub codeLength (Npos (XO (XI
-                                              (XO XH)))))
-                                        in
-                                        let entry =
-                                          if hdr
-                                          then u16
-                                                 (N.coq_lor sym
-                                                   (N.shiftl codeLength (Npos
-                                                     (XO (XI (XO XH))))))
-                                          else if N.ltb maxSymbol sym
-                                               then u16 codeLength
-                                               else u16
-                                                      (N.coq_lor
-                                                        (N.coq_lor sym
-                                                          (N.shiftl
-                                                            (aget
-                                                              rfc_dist_extra
-                                                              sym) (Npos (XI
-                                                            (XO XH)))))
+                               if (&&) (negb hdr)
+                                    (N.ltb (Npos (XO (XO (XO (XO (XI (XO
+                                      XH))))))) (N.add lcl grp))
+                               then ((((short2, long0), codes0), lcl),
+                                      EInvalidBlock)
+                               else if N.ltb (Npos (XO (XO (XO (XO (XI (XO
+                                         XH))))))) clrEnd
+                                    then ((((short2, long0), codes0), lcl),
+                                           EPanic)
+                                    else let long1 =
+                                           forN lcl clrEnd (fun x t0 ->
+                                             aset t0 x N0) long0
+                                         in
+                                         let (p3, panb) =
+                                           fold_left (fun a sym ->
+                                             let (p3, pan1) = a in
+                                             let (long2, codes1) = p3 in
+                                             let codeLength =
+                                               hc_len (aget codes1 sym)
+                                             in
+                                             let longBits =
+                                               u16
+                                                 (N.shiftr
+                                                   (hc_code (aget codes1 sym))
+                                                   (Npos (XO (XI (XO XH)))))
+                                             in
+                                             let minInc =
+                                               shl16 (Npos XH)
+                                                 (N.sub codeLength (Npos (XO
+                                                   (XI (XO XH)))))
+                                             in
+                                             let entry =
+                                               if hdr
+                                               then u16
+                                                      (N.coq_lor sym
                                                         (N.shiftl codeLength
                                                           (Npos (XO (XI (XO
                                                           XH))))))
-                                        in
-                                        let (long3, pan2) =
-                                          long_fill small_fuel (Npos (XO (XO
-                                            (XO (XO (XI (XO XH))))))) mask16
-                                            long2 lcl longBits grp minInc
-                                            entry pan1
-                                        in
-                                        ((long3,
-                                        (aset codes1 sym
-                                          (hc_setcode (aget codes1 sym) (Npos
-                                            (XI (XI (XI (XI (XI (XI (XI (XI
-                                            (XI (XI (XI (XI (XI (XI (XI
-                                            XH))))))))))))))))))), pan2))
-                                        temp ((long1, codes0), pan)
-                                    in
-                                    let (long2, codes1) = p3 in
-                                    let short3 =
-                                      aset short2 firstBits
-                                        (u16
-                                          (N.coq_lor
-                                            (N.coq_lor lcl
-                                              (N.shiftl maxLength (Npos (XI
-                                                (XI (XO XH)))))) smallFlagBit))
-                                    in
-                                    ((((short3, long2), codes1),
-                                    (N.add lcl grp)), pan1)) ((((short1,
-                long), codes), N0), false)
+                                               else if N.ltb maxSymbol sym
+                                                    then u16 codeLength
+                                                    else u16
+                                                           (N.coq_lor
+                                                             (N.coq_lor sym
+                                                               (N.shiftl
+                                                                 (aget
+                                                                   rfc_dist_extra
+                                                                   sym) (Npos
+                                                                 (XI (XO
+                                                                 XH)))))
+                                                             (N.shiftl
+                                                               codeLength
+                                                               (Npos (XO (XI
+                                                               (XO XH))))))
+                                             in
+                                             let (long3, pan2) =
+                                               long_fill small_fuel (Npos (XO
+                                                 (XO (XO (XO (XI (XO
+                                                 XH))))))) mask16 long2 lcl
+                                                 longBits grp minInc entry
+                                                 pan1
+                                             in
+                                             ((long3,
+                                             (aset codes1 sym
+                                               (hc_setcode (aget codes1 sym)
+                                                 (Npos (XI (XI (XI (XI (XI
+                                                 (XI (XI (XI (XI (XI (XI (XI
+                                                 (XI (XI (XI
+                                                 XH))))))))))))))))))), pan2))
+                                             temp ((long1, codes0), false)
+                                         in
+                                         let (long2, codes1) = p3 in
+                                         let short3 =
+                                           aset short2 firstBits
+                                             (u16
+                                               (N.coq_lor
+                                                 (N.coq_lor lcl
+                                                   (N.shiftl maxLength (Npos
+                                                     (XI (XI (XO XH))))))
+                                                 smallFlagBit))
+                                         in
+                                         ((((short3, long2), codes1),
+                                         (N.add lcl grp)),
+                                         (if panb then EPanic else ENone)))
+                ((((short1, long), codes), N0), ENone)
             in
             let (p1, _) = p0 in (p1, pan)
 
@@ -13333,7 +13346,7 @@ let codeLenCodes s hclen =
           if bad
           then (s0, EInvalidBlock)
           else let d = s0.dyn in
-               let (p1, pan) =
+               let (p1, e) =
                  gen_small true d.clcShort d.clcLong codeHuff1 (Npos (XI (XI
                    (XO (XO XH))))) codeCount0 (Npos (XI (XI (XO (XO XH)))))
                in
@@ -13344,7 +13357,7 @@ let codeLenCodes s hclen =
                  distCount = d.distCount; litExpandCount = d.litExpandCount;
                  nextCode = d.nextCode; lenHuffCodes = d.lenHuffCodes }
                in
-               ((set_dyn s0 d0), (if pan then EPanic else ENone))
+               ((set_dyn s0 d0), e)
    | None -> ((set_rd s b), EPanic))
 
 (** val clc_decode : arr -> arr -> bitrd -> (n * bitrd) option **)
@@ -14149,7 +14162,7 @@ let setupDynamicHeader s =
                                    aset t0 i (aget huff (N.add litLen i)))
                                    aempty
                                in
-                               let (p, pan) =
+                               let (p, gerr) =
                                  gen_small false s5.tb.distShort
                                    s5.tb.distLong codes distLen d2.distCount
                                    distLen
@@ -14168,8 +14181,8 @@ let setupDynamicHeader s =
                                      litLong = s5.tb.litLong; distShort =
                                      dsh; distLong = dlg }) d3
                                in
-                               if pan
-                               then (s6, EPanic)
+                               if negb (ierr_eqb gerr ENone)
+                               then (s6, gerr)
                                else let (d4, err1) =
                                       setAndExpandLitLenHuffCode d3
                                     in
@@ -15383,3 +15396,27 @@ let erun_ext bufsize cs t0 reads =
 
 let erun bufsize cs t0 reads =
   fst (erun_ext bufsize cs t0 reads)
+
+(** val rres_code : rres -> n **)
+
+let rres_code = function
+| ROk -> N0
+| REOF -> Npos XH
+| RUnexpectedEOF -> Npos (XO XH)
+| RCorrupt _ -> Npos (XI XH)
+| RSrcErr -> Npos (XO (XO XH))
+| RNoProgress -> Npos (XI (XO XH))
+| RBufferFull -> Npos (XO (XI XH))
+| RPanic -> Npos (XI (XI XH))
+| RStuck -> Npos (XO (XO (XO XH)))
+
+(** val erun_obs :
+    n -> n list list -> bool -> n list -> (n list * n) list * n **)
+
+let erun_obs bufsize chunks0 term_is_err reads =
+  let (l, c) =
+    erun_ext bufsize chunks0 (if term_is_err then TErr else TEOF) reads
+  in
+  ((frev
+     (fold_left (fun acc br -> ((fst br), (rres_code (snd br))) :: acc) l [])),
+  c)
